@@ -41,9 +41,33 @@ func eqAff(x, y *big.Int, p rsm2.Point) bool {
 	return x.Cmp(ex) == 0 && y.Cmp(ey) == 0
 }
 
+// xZero returns the finite curve point (0, sqrt(b)): the only curve points with a zero coordinate. The curve has
+// prime order, so no point has y = 0; p = 3 mod 4, so sqrt(b) = b^((p+1)/4).
+func xZero() rsm2.Point {
+	e := new(big.Int).Add(cv.P, big.NewInt(1))
+	e.Rsh(e, 2)
+	y := new(big.Int).Exp(cv.B, e, cv.P)
+	if !cv.OnCurve(new(big.Int), y) {
+		panic("harness: b is not a square")
+	}
+	return rsm2.Point{X: new(big.Int), Y: y}
+}
+
 func pointGen() *rapid.Generator[rsm2.Point] {
 	return rapid.Custom(func(t *rapid.T) rsm2.Point {
-		switch rapid.IntRange(0, 5).Draw(t, "pkind") {
+		switch rapid.IntRange(0, 6).Draw(t, "pkind") {
+		case 6:
+			// a zero coordinate must not be mistaken for the (0,0) encoding of infinity
+			p0 := xZero()
+			switch gen.Uniform(t, "xzero", 4) {
+			case 0:
+				return p0
+			case 1:
+				return cv.Neg(p0)
+			case 2:
+				return cv.Double(p0)
+			}
+			return cv.Add(p0, cv.G())
 		case 0:
 			return cv.G()
 		case 1:
@@ -282,7 +306,7 @@ func (r *scriptReader) Read(p []byte) (int, error) {
 func TestC03_GenerateKey(t *testing.T) {
 	nm2 := new(big.Int).Sub(cv.N, big.NewInt(2))
 	hx.Check(t, hx.N(1200, 15000), func(t *rapid.T) {
-		kind := rapid.SampledFrom([]string{"random", "allzero", "allff", "minus1", "short", "fail", "chunked"}).Draw(t, "kind")
+		kind := rapid.SampledFrom([]string{"random", "allzero", "allff", "minus1", "near_modulus", "near_modulus", "short", "fail", "chunked"}).Draw(t, "kind")
 		b := make([]byte, 40)
 		switch kind {
 		case "random", "short", "fail", "chunked":
@@ -291,6 +315,12 @@ func TestC03_GenerateKey(t *testing.T) {
 			for i := range b {
 				b[i] = 0xff
 			}
+		case "near_modulus":
+			// raw values around multiples of the modulus n-2 and around n itself (c = 1: the value fits in 32 bytes)
+			c := big.NewInt(int64(rapid.IntRange(1, 3).Draw(t, "c")))
+			v := new(big.Int).Mul(nm2, c)
+			v.Add(v, big.NewInt(int64(rapid.IntRange(-4, 6).Draw(t, "delta"))))
+			v.FillBytes(b)
 		case "minus1":
 			// value == -1 mod (n-2)  =>  d = n-2
 			c := big.NewInt(int64(rapid.IntRange(1, 1000).Draw(t, "c")))
